@@ -49,6 +49,8 @@ def run(prog, chk):
     chk.rule(_C15.scope_pairing, prog, chk, "A5.scope")  # a margin given as `$m`: a scope left behind by a failed group changes what it means
     from props import C19 as _C19
     chk.rule(_C19.text_not_altered, prog, chk)  # a shape written with start and end tag is sized and placed like the empty-element form whatever white space stands between the tags
+    from props import C16 as _C16e
+    chk.rule(_C16e.extent_accumulation, prog, chk)  # the box of a group whose content comes from a loop covers every pass that was drawn - the last one of an `until` loop too
 
 
 def _lit(body, t, i):
